@@ -1,0 +1,17 @@
+//go:build verif
+
+package urlrule
+
+/*@
+ufunc sameRule(a int, b int) bool
+
+func (r *URLRule) DeepEqual(r1 *URLRule) (eq bool)
+  trusted
+  pure
+  ensures eq == sameRule(ref(r), ref(r1))
+
+func (r *URLRule) Init()
+  trusted
+  requires r != nil
+  modifies r.id, r.URL.re
+@*/
